@@ -9,6 +9,9 @@
 //!     cw:<k>         buf.configure_wrap(k)
 //!     sm:<seed>:<n>  buf = StripedSequence::sample(StdRng::seed_from_u64(seed), background(seed), n)
 //!     nw:<n>:<rows>  buf = StripedSequence::new(matrix with the given rows, n)?   (Err: `E`, buf unchanged)
+//!     cl             buf = buf.clone()            (the original is dropped: the copy has no spare capacity)
+//!     fe:<b>:<seq>   buf = StripedSequence::from(EncodedSequence::new(seq))   (b = dg/ds/da, C = 32 only)
+//!     vm             let l = buf.len(); let m = DenseMatrix::from(take(buf)); buf = StripedSequence::new(m, l)?
 //! backends <b>: g = Pipeline::generic(), a = Pipeline::avx2(), dg/ds/da =
 //! Pipeline::dispatch() with the arm forced to Generic/Sse2/Avx2 (C = 32 only for
 //! everything except g); ng/nn (C = 16 only) = the dispatcher as compiled for arm/aarch64
@@ -50,6 +53,9 @@ enum Op {
     ConfigureWrap(usize),
     Sample(u64, usize),
     New(usize, Vec<Vec<usize>>),
+    CloneBuf,
+    FromEnc(String, Vec<usize>),
+    ViaMatrix,
 }
 
 fn show_seq(s: &[usize]) -> String {
@@ -76,6 +82,9 @@ fn show_op(op: &Op) -> String {
         Op::ConfigureWrap(k) => format!("cw:{}", k),
         Op::Sample(seed, n) => format!("sm:{}:{}", seed, n),
         Op::New(n, rows) => format!("nw:{}:{}", n, show_matrix(rows)),
+        Op::CloneBuf => "cl".to_string(),
+        Op::FromEnc(b, s) => format!("fe:{}:{}", b, show_seq(s)),
+        Op::ViaMatrix => "vm".to_string(),
     }
 }
 
@@ -91,6 +100,9 @@ fn parse_op(s: &str) -> Op {
             p[1].parse().unwrap(),
             if p[2] == "-" { vec![] } else { p[2].split('/').map(parse_seq).collect() },
         ),
+        "cl" => Op::CloneBuf,
+        "fe" => Op::FromEnc(p[1].to_string(), parse_seq(p[2])),
+        "vm" => Op::ViaMatrix,
         _ => panic!("bad op {}", s),
     }
 }
@@ -144,6 +156,8 @@ fn force(b: &str) {
 trait Cols<A: Alphabet>: PositiveLength + Sized {
     fn stripe_into(b: &str, seq: &[A::Symbol], buf: &mut StripedSequence<A, Self>);
     fn stripe(b: &str, seq: &[A::Symbol]) -> StripedSequence<A, Self>;
+    /// `StripedSequence::from(EncodedSequence)` (exists only where the dispatching pipeline stripes)
+    fn from_enc(b: &str, seq: &[A::Symbol]) -> StripedSequence<A, Self>;
     const ALL: bool;
 }
 
@@ -176,6 +190,9 @@ macro_rules! generic_cols {
                     }
                     _ => panic!("backend {} does not exist for this column count", b),
                 }
+            }
+            fn from_enc(b: &str, _seq: &[A::Symbol]) -> StripedSequence<A, Self> {
+                panic!("From<EncodedSequence> ({}) does not exist for this column count", b)
             }
         }
     )*};
@@ -225,6 +242,14 @@ impl<A: Alphabet> Cols<A> for U32 {
             }
             _ => panic!("unknown backend {}", b),
         }
+    }
+    fn from_enc(b: &str, seq: &[A::Symbol]) -> StripedSequence<A, Self> {
+        let b = effective(b);
+        let enc = EncodedSequence::<A>::new(seq.to_vec());
+        force(b);
+        let r = no_panic(|| StripedSequence::<A, U32>::from(enc));
+        force("");
+        r.expect("From<EncodedSequence> panicked")
     }
 }
 
@@ -406,6 +431,35 @@ fn run_case<A: Alphabet, C: Cols<A>>(ops: &[Op], idx: &[usize]) -> String {
                     }
                 }
             }
+            Op::CloneBuf => no_panic(|| {
+                let copy = buf.clone();
+                buf = copy;
+            }),
+            Op::FromEnc(b, s) => {
+                let seq = symbols_of::<A>(s);
+                bm = backend_mismatch::<A, C>(&buf, &seq, true);
+                no_panic(|| {
+                    buf = C::from_enc(b, &seq);
+                })
+            }
+            Op::ViaMatrix => {
+                let built = no_panic(|| {
+                    let l = buf.len();
+                    let m: DenseMatrix<A::Symbol, C> = DenseMatrix::from(std::mem::take(&mut buf));
+                    StripedSequence::<A, C>::new(m, l)
+                });
+                match built {
+                    None => None,
+                    Some(Ok(s)) => {
+                        buf = s;
+                        Some(())
+                    }
+                    Some(Err(_)) => {
+                        out.push("E".to_string());
+                        continue;
+                    }
+                }
+            }
         };
         force("");
         match r {
@@ -516,7 +570,20 @@ fn gen_history(rng: &mut Rng, k: usize, c: usize, tier: &str, nops: usize) -> (V
         let r = rng.below(100);
         let stripe = if i == 0 { r < 85 } else { r < 45 };
         let build = rng.below(100);
-        let op = if build < 7 {
+        let op = if build >= 92 && i > 0 {
+            // Clone (exact capacity afterwards), DenseMatrix::from + new, From<EncodedSequence>
+            match rng.below(if c == 32 { 10 } else { 7 }) {
+                0..=3 => Op::CloneBuf,
+                4..=6 => Op::ViaMatrix,
+                _ => {
+                    let len = gen_len(rng, c, tier);
+                    lens.push(len);
+                    rows = (len + c - 1) / c;
+                    let b = *rng.pick(&["dg", "ds", "da", "da"]);
+                    Op::FromEnc(b.to_string(), gen_seq(rng, k, len))
+                }
+            }
+        } else if build < 7 {
             // StripedSequence::sample: every cell random, padding included
             let len = gen_len(rng, c, tier).min(1500);
             lens.push(len);
@@ -586,6 +653,76 @@ fn gen_history(rng: &mut Rng, k: usize, c: usize, tier: &str, nops: usize) -> (V
     (ops, idx)
 }
 
+/// A new length of the given pair class for a reused destination (seeded/C04/5):
+/// 0 = below C (one row), 1 = a multiple of R = ceil(L/C) that is not a multiple of C (the
+/// sequence ends at the bottom of a column), 2 = a multiple of C, 3 = partial last column, 4 = empty.
+fn class_len(rng: &mut Rng, c: usize, class: u64) -> usize {
+    match class {
+        0 => rng.below(c as u64) as usize,
+        1 => {
+            // R in 2..=9 (R < C needed for such an L to exist), L = R*q with (R-1)*C < L < R*C
+            if c < 3 {
+                return rng.below(c as u64) as usize;
+            }
+            let r = 2 + rng.below(8.min(c as u64 - 2)) as usize;
+            let qlo = ((r - 1) * c) / r + 1;
+            let q = qlo + rng.below((c - qlo).max(1) as u64) as usize;
+            r * q.min(c - 1)
+        }
+        2 => c * rng.below(12) as usize,
+        3 => c * (1 + rng.below(12) as usize) + 1 + rng.below(c as u64) as usize,
+        _ => 0,
+    }
+}
+
+/// stripe_into into a REUSED destination: a longer sequence without any wildcard first
+/// (sometimes with look-ahead rows), then new lengths of every pair class, shrinking and growing.
+fn gen_reuse(rng: &mut Rng, k: usize, c: usize) -> (Vec<Op>, Vec<usize>) {
+    let nowild = |rng: &mut Rng, len: usize| -> Vec<usize> { (0..len).map(|_| rng.below(k as u64 - 1) as usize).collect() };
+    let mut ops = vec![];
+    let mut lens = vec![];
+    let old = c * (2 + rng.below(12) as usize) + rng.below(c as u64) as usize;
+    let b0 = if c == 32 { gen_backend(rng, c) } else { "g".to_string() };
+    ops.push(Op::StripeInto(b0, nowild(rng, old)));
+    lens.push(old);
+    let n = 1 + rng.below(5);
+    for _ in 0..n {
+        if rng.chance(1, 3) {
+            ops.push(Op::ConfigureWrap(rng.below(6) as usize));
+        }
+        if rng.chance(1, 8) {
+            ops.push(Op::CloneBuf);
+        }
+        let class = rng.below(5);
+        let len = class_len(rng, c, class);
+        // the kernels that run the provided (generic) stripe_into, and now and then the AVX2 one
+        let b = match c {
+            32 => rng.pick(&["g", "g", "dg", "ds", "a", "da"]).to_string(),
+            16 => rng.pick(&["g", "ng", "nn"]).to_string(),
+            _ => "g".to_string(),
+        };
+        let s = if rng.chance(4, 5) { nowild(rng, len) } else { gen_seq(rng, k, len) };
+        ops.push(Op::StripeInto(b, s));
+        lens.push(len);
+        if rng.chance(1, 4) {
+            let grow = c * (1 + rng.below(14) as usize) + rng.below(c as u64) as usize;
+            ops.push(Op::StripeInto("g".to_string(), nowild(rng, grow)));
+            lens.push(grow);
+        }
+    }
+    let mut idx: Vec<usize> = vec![0];
+    for &l in lens.iter().rev().take(3) {
+        let rc = ((l + c - 1) / c) * c;
+        for x in [l.saturating_sub(1), l, rc.saturating_sub(1), rc] {
+            if !idx.contains(&x) {
+                idx.push(x);
+            }
+        }
+    }
+    idx.truncate(16);
+    (ops, idx)
+}
+
 fn show_case(id: &str, alpha: &str, k: usize, c: usize, ops: &[Op], idx: &[usize]) -> String {
     format!(
         "{} A={} K={} C={} idx={} ops={}",
@@ -618,6 +755,10 @@ fn gen_case(rng: &mut Rng, id: usize, tier: &str) -> String {
         return show_case(&id.to_string(), alpha, k, 32, &ops, &idx);
     }
     let c = *rng.pick(&[1usize, 2, 4, 8, 16, 16, 48, 64, 32, 32, 32, 32, 32, 32]);
+    if rng.chance(1, 7) {
+        let (ops, idx) = gen_reuse(rng, k, c);
+        return show_case(&id.to_string(), alpha, k, c, &ops, &idx);
+    }
     let nops = 1 + rng.below(12) as usize;
     let (ops, idx) = gen_history(rng, k, c, tier, nops);
     show_case(&id.to_string(), alpha, k, c, &ops, &idx)
